@@ -860,6 +860,7 @@ def run_generic(ctx, gspec, sspec, over=None, want_model=True, corner=None, hist
                 continue
             mv = [float(_frac(t)) for t in parts[1][1:-1].split(',')] if parts[1] != '[]' else []
             near = [t == '1' for t in parts[2][1:-1].split(',')] if parts[2] != '[]' else []
+            check_polar_slack(ctx, case, mode, parts)
             if mode != 'super' and parts[3] != '1':
                 ctx.disagree('C12 model-self', {'case': case, 'detail': 'code-path model differs from point semantics', 'mode': mode})
             if mode == 'super':
@@ -888,6 +889,18 @@ def run_generic(ctx, gspec, sspec, over=None, want_model=True, corner=None, hist
                                                      'model': mv[i], 'impl': float(rv[i])}, key='%s:model:%s' % (label, name))
                         break
     return [l for _, l in lines], check
+
+
+def check_polar_slack(ctx, case, mode, parts):
+    """polar requests: the driver counts the points where a radius shortcut of the model disagrees with the Cartesian test
+    (`diskAgree` false) although the point is not within tol of a decision boundary.  For radii >= 0 theorem polar_float_rim
+    says that needs |r^2 - R^2| <= eps r^2 with eps the rounding error of cos^2 + sin^2 — far inside the tol band: must be 0."""
+    if mode != 'polar':
+        return
+    ctx.count('polar-float-slack-checked')
+    if len(parts) < 5 or parts[4] != '0':
+        ctx.disagree('C12 polar-float-slack', {'case': case, 'detail': 'diskAgree fails away from every decision boundary', 'count': parts[4] if len(parts) > 4 else None},
+                     key='polar-float-slack')
 
 
 def _frac(t):
@@ -1199,6 +1212,7 @@ def run_keck(ctx, kw, gseed, fam):
                 continue
             mv = [float(_frac(t)) for t in parts[1][1:-1].split(',')] if parts[1] != '[]' else []
             near = [t == '1' for t in parts[2][1:-1].split(',')] if parts[2] != '[]' else []
+            check_polar_slack(ctx, case, mode, parts)
             if parts[3] != '1':
                 ctx.disagree('C12 model-self', {'case': case, 'detail': 'code-path model differs from point semantics', 'mode': mode})
             names = (('regular', 'separated', 'separated-indep') if mode == 'sep' else ('polar', 'polar-separated') if mode == 'polar'
@@ -1318,6 +1332,7 @@ def run_vlt(ctx, kw, gseed, fam, nseg=2):
                 ctx.disagree('C12 vlt ' + mode, {'case': case, 'segment': w, 'model': resp})
                 continue
             mv, near = _rats(parts[1]), _bits(parts[2])
+            check_polar_slack(ctx, case, mode, parts)
             if parts[3] != '1':
                 ctx.disagree('C12 model-self', {'case': case, 'detail': 'code-path model differs from point semantics', 'mode': mode})
             names = (('regular', 'separated', 'separated-indep') if mode == 'sep' else ('polar', 'polar-separated') if mode == 'polar'
@@ -1490,6 +1505,7 @@ def run_recipe(ctx, name, kw, gseed, fam, feat=None):
                 ctx.disagree('C12 recipe ' + mode, {'case': case, 'model': resp[:80]})
                 continue
             mv, near = _rats(parts[1]), _bits(parts[2])
+            check_polar_slack(ctx, case, mode, parts)
             if parts[3] != '1':
                 ctx.disagree('C12 model-self', {'case': case, 'detail': 'code-path model differs from point semantics', 'mode': mode})
             names = (('regular', 'separated', 'separated-indep') if mode == 'sep' else ('polar', 'polar-separated') if mode == 'polar'
@@ -1737,7 +1753,7 @@ def run_negative_diameter(ctx):
             bad = [i for i in range(len(mv)) if not near[i] and abs(mv[i] - rv[i]) > 1e-9]
             if rv is None or bad:
                 ctx.disagree('C12 negative-diameter', {'grid': gspec, 'diameter': d, 'rep': nm, 'index': bad[:3]}, key='negative-diameter:model:' + nm)
-        if out[1].split(' ')[3] != '0':
+        if out[1].split(' ')[4] == '0':
             ctx.disagree('C12 negative-diameter', {'grid': gspec, 'diameter': d, 'detail': 'the model does not show the representation dependence'})
         if np.count_nonzero(cart != pol):
             seen += 1
